@@ -138,6 +138,7 @@ def emul_full_expr(e, l, my_eip, env, machine):
             else:
                 return 0
 
+        mem_dst = []
         while True:
 
             my_ecx = machine.eval_expr(machine.pool[ecx], {})
